@@ -5,9 +5,10 @@ CONSTANTS
   NP = 2
   BufModes = {0, 2}
   Ks = {1, 2, 3}
-  MaxOps = 5
+  MaxOps = 99
   MaxVer = 2
   MaxBatch = 2
+  BatchVecs = {1, 2}
   FConsolidateTombstones = FALSE
   FBufferBlind = FALSE
 VIEW View
